@@ -4,6 +4,7 @@ import (
 	"fmt"
 	"go/token"
 	"go/types"
+	"sort"
 	"strings"
 
 	"golang.org/x/tools/go/ssa"
@@ -606,11 +607,19 @@ func (e *Exec) alloc(st *State, hint string) Term {
 	st.freshSeq[r.S] = st.seq
 	// memory beyond the allocation frontier reads as zero in every unknown
 	// ghost array that already exists on this path
-	for k, root := range st.roots {
+	// (in sorted order: the solvers' behaviour depends on the order of
+	// assertions, and map iteration order would make it differ from run to run)
+	var gks []string
+	for k := range st.roots {
 		if strings.HasPrefix(k, "ghost:") && !strings.Contains(k, "$") {
-			if es := elemSort(root.t.Sort); es == SBool || es == SInt || es == SStr {
-				st.assert(Eq(Select(root.t, r), zeroOf(es)))
-			}
+			gks = append(gks, k)
+		}
+	}
+	sort.Strings(gks)
+	for _, k := range gks {
+		root := st.roots[k]
+		if es := elemSort(root.t.Sort); es == SBool || es == SInt || es == SStr {
+			st.assert(Eq(Select(root.t, r), zeroOf(es)))
 		}
 	}
 	return r
@@ -690,6 +699,14 @@ func (e *Exec) havocAll(st *State) {
 			}
 		}
 	}
+	sort.Slice(mono, func(i, j int) bool { return mono[i].k < mono[j].k })
+	sort.Slice(stable, func(i, j int) bool { return stable[i].k < stable[j].k })
+	sort.Slice(keeps, func(i, j int) bool {
+		if keeps[i].key != keeps[j].key {
+			return keeps[i].key < keeps[j].key
+		}
+		return keeps[i].ref < keeps[j].ref
+	})
 	defer func() {
 		for _, kp := range keeps {
 			nw := e.cur(st, kp.key, elemSort(kp.sort), false)
